@@ -71,9 +71,10 @@ class RegexMatch(Artifact):
         self.key = "R{}".format(id)
         self.id = id
         self.match = m
-        self.mstart = m.span(self.key)[0]
-        self.mend = m.span(self.key)[1]
         self._text = m.group(self.key)
+        self.mstart = m.span(self.key)[0]
+        # patterns may swallow trailing blanks; these are not part of the match
+        self.mend = self.mstart + len(self._text.rstrip())
 
     def __str__(self) -> str:
         return "{}:{}".format(self.id, self._text)
